@@ -61,7 +61,13 @@ def gen_sweep_node(rnd):
     variables = {}
     for v in names:
         r = rnd.random()
-        if r < 0.4:
+        if r < 0.1:
+            # explicit values that are themselves mappings / nested containers: their key order is cosmetic too
+            variables[v] = [{"name": rnd.choice(["low", "high"]), "gain": rnd.randrange(1, 20), "opts": {"z": i, "a": [i, {"q": 1, "b": 2}]}}
+                            for i in range(rnd.choice([1, 2, 4]))]
+            if rnd.random() < 0.5:
+                variables[v] = {"values": variables[v]}
+        elif r < 0.4:
             variables[v] = [rnd.randrange(0, 9) for _ in range(rnd.choice([1, 3, 4, 8]))]
         elif r < 0.75:
             lo = rnd.choice([1.0, 0.5, 2.0])
@@ -95,6 +101,17 @@ def gen_config(rnd, with_sweep=0.5):
     for i in range(n):
         if rnd.random() < with_sweep / n * 2 and i in (0, 1):
             nodes.append(gen_sweep_node(rnd))
+            continue
+        if rnd.random() < 0.08:
+            # the framework's own model-fitting context processor: some of its parameters are consumed by the node factory
+            # (variable mapping, output key) — they are part of the configuration all the same
+            params = {"fitting_model": rnd.choice(SHORTHANDS)}
+            r = rnd.random()
+            if r < 0.5:
+                params.update({"independent_var_key": rnd.choice(["xs", "t"]), "dependent_var_key": rnd.choice(["ys", "v"])})
+            if rnd.random() < 0.6:
+                params["context_key"] = rnd.choice(["fit.k", "fit2"])
+            nodes.append({"processor": "ModelFittingContextProcessor", "parameters": params})
             continue
         proc = rnd.choice(["TSource", "TSourceDef", "TOp1", "TOp2", "TOp1Def", "TOp0", "TOpW", "TProbe", "TProbeP", "rename:a:b",
                            "delete:a", 'template:"x_{a}":out', "TSink", "slice:TOp1:TColl"])
